@@ -985,6 +985,22 @@ theorem C06_key_wire_id_is_registered_id (f₁ f₂ : Nat) (hf : f₁ ≠ 0) (at
 example : send {} 7 8 [⟨.foreign, .id, 2⟩, ⟨.none, .id, 0⟩, ⟨.none, .type, 1⟩] =
     (7, [⟨.foreign, .id, 2⟩, ⟨.none, .id, 7⟩, ⟨.none, .type, 1⟩]) := by decide
 
+/-- round F (the encoder as repaired by "the stanza encoder takes any attribute with the local name
+id … for the stanza attribute, whatever its namespace"): an attribute that merely shares the local
+name — `x:id`, `xmlns:id`, empty or not — reaches the wire untouched, and never counts as the
+stanza's id (a request whose only id-named attribute is qualified still gets a generated id) -/
+theorem C06_key_encoder_passes_qualified (f₂ : Nat) (attrs : List Attr) (a : Attr)
+    (ha : a ∈ attrs) (hq : a.space ≠ .none) : a ∈ encode f₂ attrs := by
+  have hk : a ∈ attrs.filter (fun a => !(a.space = .none && a.loc = .id && a.val = 0)) := by
+    simp [List.mem_filter, ha, hq]
+  unfold encode
+  simp only []
+  split
+  · exact hk
+  · exact List.mem_append_left _ hk
+
+example : encode 8 [⟨.foreign, .id, 0⟩, ⟨.none, .id, 0⟩] = [⟨.foreign, .id, 0⟩, ⟨.none, .id, 8⟩] := by decide
+
 /-- a call never waits under the empty id -/
 theorem C06_key_registered_id_nonempty (cfg : CorrKey.Cfg) (f₁ : Nat) (hf : f₁ ≠ 0) (attrs : List Attr) :
     (prepare cfg f₁ attrs).1 ≠ 0 := by
